@@ -14,6 +14,8 @@ import (
 	"sync/atomic"
 	"time"
 
+	"github.com/MinterTeam/minter-go-node/coreV2/events"
+
 	abci "github.com/tendermint/tendermint/abci/types"
 )
 
@@ -45,6 +47,7 @@ type Step struct {
 	Evidence []string `json:"evidence,omitempty"`
 	Dt       int64    `json:"dt,omitempty"`       // extra seconds added to the clock before this block
 	Hour     int      `json:"hour,omitempty"`     // 1..24: move the clock forward to the next time with hour-1 (UTC)
+	Edge     string   `json:"edge,omitempty"`     // with hour: "start" = the first second of that hour, "end" = its last second
 	N        int      `json:"n,omitempty"`        // skip: number of empty blocks
 	K        int      `json:"k,omitempty"`        // block: the process dies after the k-th database write of this block's commit
 	After    string   `json:"after,omitempty"`    // block: the process dies after the first commit write whose label has this prefix
@@ -333,7 +336,7 @@ func (c *runCtx) diskProjection(rec *Rec) {
 		ar := ReadAppRecords(c.nd.Disk)
 		rec.App = &ar
 		if rec.Obs != nil {
-			rec.Obs.DiskD = c.diskD(d)
+			rec.Obs.DiskD = c.diskD(d) + c.eventsD(c.nd.Disk, rec.H)
 			rec.Obs.Vals = ar.Vals
 		}
 	})
@@ -347,7 +350,7 @@ func (c *runCtx) diskProjection(rec *Rec) {
 			c.iu.AbsorbExport(&st)
 			d := ProjectDisk(c.id, &st, c.iu)
 			d.H = rec.H
-			rec.Ideal.DiskD = c.diskD(d)
+			rec.Ideal.DiskD = c.diskD(d) + c.eventsD(c.id.Disk, rec.H)
 			rec.Ideal.Vals = ReadAppRecords(c.id.Disk).Vals
 		})
 		if ires.Panic != "" {
@@ -416,6 +419,21 @@ func (c *runCtx) stD(a *Abs, kind string) string {
 		return digest(normalise(a, c.folded))
 	}
 	return stateDigest(a, kind)
+}
+
+// eventsD: what the events query returns for height h, read back from the events database with a fresh store (the record a
+// crashed, replayed or restarted node keeps for a block is part of what C09/C10 compare). Not compared after an export/import
+// round trip: the imported chain starts a new events database.
+func (c *runCtx) eventsD(d *Disk, h uint64) string {
+	if c.imported || d == nil || d.Events == nil {
+		return ""
+	}
+	b, err := json.Marshal(events.NewEventsStore(d.Events.DB).LoadEvents(uint32(h)))
+	if err != nil {
+		return "/events:" + err.Error()
+	}
+	sum := sha256.Sum256(b)
+	return "/ev:" + hex.EncodeToString(sum[:6])
 }
 
 func (c *runCtx) diskD(a *Abs) string {
@@ -699,11 +717,21 @@ func updatesOf(nd *Node, er abci.ResponseEndBlock) *RecEnd {
 func (c *runCtx) block(st *Step) {
 	nd := c.nd
 	h := c.h + 1
+	prevClock := c.clock
 	c.clock += nd.W.BlockSeconds + st.Dt
 	if st.Hour > 0 {
 		t := time.Unix(c.clock, 0).UTC()
 		for t.Hour() != st.Hour-1 {
 			t = t.Add(time.Hour)
+		}
+		switch st.Edge {
+		case "start":
+			t = t.Truncate(time.Hour)
+			if t.Unix() <= prevClock {
+				t = t.Add(24 * time.Hour)
+			}
+		case "end":
+			t = t.Truncate(time.Hour).Add(3599 * time.Second)
 		}
 		c.clock = t.Unix()
 	}
